@@ -1112,6 +1112,14 @@ func (b *bitstream) read() (int, error) {
 
 // Skip skips n bytes of input from the underlying stream.
 func (b *bitstream) skip(n uint64) error {
+	if b.in.Buffered() == 0 {
+		// Discard refills an empty buffer without looking at a pending read error (one that arrived
+		// together with the last bytes), which would lose it for good. Peek hands it out.
+		if _, err := b.in.Peek(1); err != nil && err != io.EOF {
+			return &IOError{err}
+		}
+	}
+
 	actual, err := b.in.Discard(int(n))
 	b.pos += uint64(actual)
 
